@@ -24,15 +24,58 @@ ssize_t __wrap_sendto(int fd, const void *buf, size_t len, int flags, const stru
 	memcpy(wire, buf, wirelen);
 	return len;
 }
+/* what the receive buffer holds behind the datagram: 0 = 64 bytes of 0xA5 (default), 1 zeros, 2 0xA5, 3 the tail of the
+   previous (complete) datagram, 4.. a repeated two-byte pattern of small numbers */
+static int paint_mode = 0;
+static unsigned char prevwire[70000];
+static int prevlen = 0;
+static const unsigned char pats[][2] = { { 0x00, 0x0a }, { 0x00, 0x14 }, { 0x01, 0x00 }, { 0xc0, 0x0c }, { 0x0a, 0x00 } };
+#define NPAINT 9
+
 ssize_t __wrap_recvfrom(int fd, void *buf, size_t len, int flags, struct sockaddr *sa, socklen_t *slen)
 {
 	int n = wirelen;
+	size_t i, rest;
+	unsigned char *b = buf;
 	if (n < 0) return -1;
 	if ((size_t) n > len) n = (int) len;
 	memcpy(buf, wire, n);
-	memset((char *) buf + n, 0xA5, len - n > 64 ? 64 : len - n);
+	rest = len - n;
+	switch (paint_mode) {
+	case 0: memset(b + n, 0xA5, rest > 64 ? 64 : rest); break;
+	case 1: memset(b + n, 0, rest); break;
+	case 2: memset(b + n, 0xA5, rest); break;
+	case 3:
+		memset(b + n, 0x5A, rest);
+		if (prevlen > n)
+			memcpy(b + n, prevwire + n, (size_t) (prevlen - n) < rest ? (size_t) (prevlen - n) : rest);
+		break;
+	default:
+		for (i = 0; i < rest; i++)
+			b[n + i] = pats[(paint_mode - 4) % 5][i & 1];
+		break;
+	}
 	if (slen) *slen = 0;
 	return n;
+}
+
+/* offsets of the RDLENGTH fields of the answer records of a well-formed message produced by write_dns() */
+static int rr_offsets(const unsigned char *w, int n, int *offs, int max)
+{
+	int p = 12, cnt = 0, an, i;
+	if (n < 12) return 0;
+	an = (w[6] << 8) | w[7];
+	while (p < n && w[p] != 0 && (w[p] & 0xc0) != 0xc0) p += w[p] + 1;	/* question name */
+	p += (p < n && (w[p] & 0xc0) == 0xc0) ? 2 : 1;
+	p += 4;
+	for (i = 0; i < an && cnt < max; i++) {
+		while (p < n && w[p] != 0 && (w[p] & 0xc0) != 0xc0) p += w[p] + 1;
+		p += (p < n && (w[p] & 0xc0) == 0xc0) ? 2 : 1;
+		if (p + 10 > n) break;
+		offs[cnt++] = p + 8;
+		p += 10 + ((w[p + 8] << 8) | w[p + 9]);
+	}
+	return cnt;
 }
 
 static void gen(unsigned char *p, int n, int kind, int seed)
@@ -83,6 +126,60 @@ int main(int argc, char **argv)
 		for (i = 0; i < 240; i++) { longname[p++] = (i % 58 == 57) ? '.' : "abcdefghijklmnopqrstuvwxyz012345"[i % 32]; }
 		strcpy(longname + p, ".t.example.co");
 		longname[0] = 'p';
+	}
+	if (argc > 5 && !strcmp(argv[5], "residue")) {
+		/* C12, client side, at the decoder itself: cut-down variants of real answers (every record boundary with
+		   RDLENGTH patched to the 0 / 1 / 2 bytes left, and cuts at other places) decoded under every painting of
+		   the receive buffer; all results must agree */
+		static unsigned char full[70000], res0[70000];
+		static const int sizes[] = { 2, 20, 150, 156, 200, 310, 460, 700, 1200 };
+		int si, v;
+		uint64_t rng = (uint64_t) seed * 2862933555777941757ULL + 3037000493ULL;
+		for (t = 0; t < 7; t++)
+			for (c = 0; c < 5; c++) {
+				if (codecs[c] == 'R' && !(types[t] == 16 || types[t] == 10 || types[t] == 65399)) continue;
+				if ((cnt++ % ns) != shard) continue;
+				for (si = 0; si < 9; si++) {
+					int offs[300], nrr, fl;
+					n = sizes[si];
+					gen(pay, n, 3, seed + n);
+					wirelen = -1;
+					srv_answer(types[t], shortname, 0x1234, codecs[c], (char *) pay, n);
+					if (wirelen < 0) continue;
+					fl = wirelen;
+					memcpy(full, wire, fl);
+					nrr = rr_offsets(full, fl, offs, 300);
+					for (v = 0; v < nrr * 3 + 12; v++) {
+						int cutlen, pm, r0 = 0, at0 = 0, equal = 1, r, at;
+						memcpy(wire, full, fl);
+						if (v < nrr * 3) {		/* record boundary, 0 / 1 / 2 bytes of rdata left */
+							int o = offs[v / 3], left = v % 3;
+							wire[o] = 0; wire[o + 1] = (unsigned char) left;
+							cutlen = o + 2 + left;
+						} else {
+							rng = rng * 6364136223846793005ULL + 1442695040888963407ULL;
+							cutlen = 12 + (int) ((rng >> 33) % (unsigned) (fl - 11));
+						}
+						if (cutlen > fl) cutlen = fl;
+						memcpy(prevwire, full, fl);
+						prevlen = fl;
+						for (pm = 1; pm < NPAINT; pm++) {
+							paint_mode = pm;
+							wirelen = cutlen;
+							memset(got, 0, 4200);
+							r = cli_extract(got, sizeof(got), &at);
+							if (r < 0) r = -1;
+							if (pm == 1) { r0 = r; at0 = at; if (r > 0) memcpy(res0, got, r); }
+							else if (r != r0 || (r > 0 && memcmp(res0, got, r)) || (r > 0 && at != at0)) equal = 0;
+						}
+						paint_mode = 0;
+						printf("{\"e\":\"Pair\",\"i\":%d,\"equal\":%s,\"len\":%d,\"victim\":true,\"qt\":%d,\"codec\":\"%c\",\"cut\":\"%s\",\"hex\":\"\"}\n",
+						       v, equal ? "true" : "false", cutlen, types[t], codecs[c], v < nrr * 3 ? "record" : "random");
+					}
+				}
+				printf("{\"e\":\"Reset\"}\n");
+			}
+		return 0;
 	}
 	for (t = 0; t < 7; t++)
 		for (c = 0; c < 5; c++) {
